@@ -104,6 +104,7 @@ class EFLRItem:
         """Set a new origin reference (point to a different Origin)."""
 
         self._origin_reference = self._validate_origin_reference(v)
+        self.__dict__.pop('obname', None)  # the cached identity bytes hold the previous origin reference
 
     @staticmethod
     def _validate_origin_reference(v: Union[int, None], allow_none: bool = False) -> Union[int, None]:
